@@ -52,6 +52,6 @@ def replay(path):
     f = d.get('failing_input')
     print(json.dumps(f or d['broken'], indent=1, default=str)[:3000])
     if f and f.get('kind') == 'c10':
-        cfg = {k: f[k] for k in ('noise', 'd', 'm', 'batch', 'seed', 'dt', 'ks', 't0', 'weights') if k in f}
+        cfg = {k: f[k] for k in ('noise', 'd', 'm', 'batch', 'seed', 'dt', 'ks', 't0', 'weights', 'extras') if k in f}
         print('now (relative difference, sliver steps):', osde.c10_case(**cfg))
     return 1
